@@ -126,6 +126,7 @@ def propose(rng, n, n4):
 
 def run(ctx):
     ctx.tlc("MC_Capacity", "MC_Capacity_witness.cfg", expect_violation=True, workers=8)
+    ctx.tlc("MC_Capacity", "MC_Capacity_live.cfg", workers=8, timeout=900)     # the estimation machine always reaches its final phase
     r = ctx.tlc("MC_Capacity", "MC_Capacity_%s.cfg" % ctx.tier, workers=16, timeout=3400, heap="12g")
     recs = r.records
     if len(recs) != (4096 if ctx.quick else 65536):
